@@ -428,11 +428,20 @@ fn run_case(keys: &Keys, line: &str) -> String {
 	format!("V {} # R {}", view.join(";"), r)
 }
 
+static LAST_PANIC: std::sync::Mutex<String> = std::sync::Mutex::new(String::new());
+
 fn main() {
 	let keys = Keys::new(100);
+	let hook = std::sync::Once::new();
 	for_each_case(|l| {
+		// (after for_each_case installed its silent hook) remember the panic message
+		hook.call_once(|| {
+			std::panic::set_hook(Box::new(|info| {
+				*LAST_PANIC.lock().unwrap() = format!("{}", info).replace('\n', " ");
+			}));
+		});
 		let t: Vec<&str> = l.split_whitespace().collect();
-		match t[0] {
+		let r = std::panic::catch_unwind(std::panic::AssertUnwindSafe(|| match t[0] {
 			"fee" => {
 				let f = RoutingFees { base_msat: t[2].parse().unwrap(), proportional_millionths: t[3].parse().unwrap() };
 				let a: u64 = t[1].parse().unwrap();
@@ -455,6 +464,10 @@ fn main() {
 				format!("{} {}", contribution, fees.iter().map(|f| f.to_string()).collect::<Vec<_>>().join(","))
 			},
 			_ => run_case(&keys, l),
+		}));
+		match r {
+			Ok(s) => s,
+			Err(_) => format!("PANIC {}", LAST_PANIC.lock().unwrap()),
 		}
 	});
 }
